@@ -1,41 +1,61 @@
 /-
   C01 — Expression evaluation follows the Cedar language semantics.
-  This file: (1) the Go overflow checks, transcribed literally with two's-complement `wrap`, are
-  exact for ALL operand pairs; (2) comparison is total on like kinds and a type error otherwise;
-  (3) the regenerated extension table of the Go source equals the model's;
-  (4) refinement of `Model.eval` against the specification evaluator: see C01 section of DESIGN.md
-  (the specification-level evaluator and `C01_eval_refines_spec_partial` live in C01Spec.lean when present).
+
+  `eval` (CedarGo/Model/Eval.lean) is the transcription of the Go evaluator, tied to the Go code by the
+  correspondence check; `Spec.evaluate` (CedarGo/Spec/Evaluator.lean) is the transcription of the Cedar
+  specification's `evaluate`.  This file states what is proved about the two:
+
+  (1) the Go overflow checks (`+`, `-`, `*`, unary `-`), transcribed with two's-complement `wrap`,
+      are exact for ALL int64 operand pairs;
+  (2) comparison is total on like kinds and a type error otherwise;
+  (3) the greedy leftmost chunk matcher of types/pattern.go decides exactly the specification's
+      backtracking `wildcardMatch` on every pattern `types.NewPattern` can build;
+  (4) evaluation preserves the 64-bit range invariant;
+  (5) REFINEMENT: for every expression, store and request (in-range literals and store, well-formed
+      patterns) the Go evaluator returns exactly the value the specification defines, and fails exactly
+      when the specification fails — unconditionally for the specification instantiated with the Go
+      `toDate`/`toTime`, and for the real specification whenever no `toDate`/`toTime` call is applied
+      to a negative datetime that is not day-aligned;
+  (6) that last hypothesis cannot be dropped: `toDate` / `toTime` on such datetimes is a genuine defect
+      of cedar-go (Go `%` truncates, the specification floors) — counterexamples below;
+  (7) the regenerated extension table of the Go source equals the model's.
+
+  The refinement relation `Refines impl spec` is: `impl = spec`, or `spec` is an error and `impl` is a
+  type error (or cedar-go's `unspecified`-entity error).  The second alternative is needed because the
+  error KIND can differ when two operands are both faulty: the specification evaluates all operands of an
+  operator before it applies it, cedar-go converts each operand as soon as it is evaluated
+  (`true + (9223372036854775807 + 1)`: specification `overflow`, cedar-go `type` — `C01_error_kind_may_differ`).
+  Values, and whether evaluation fails, never differ (`C01_eval_ok_iff_spec_ok`, `C01_eval_error_iff_spec_error`).
 -/
 import CedarGo.Model.Fold
 import CedarGo.Generated.Facts
+import CedarGoProofs.Lemmas.C01Main
 namespace CedarGo
+open Spec (evaluateWith wildcardMatchElems PatElem)
+open C01L
 
-theorem wrap_of_inI64 (x : Int) (h : InI64 x) : wrap x = x := by
-  unfold wrap; unfold InI64 minI64 maxI64 at h; omega
-
-theorem wrap_inI64 (x : Int) : InI64 (wrap x) := by
-  unfold wrap InI64 minI64 maxI64; omega
+/-! ### (1) Checked arithmetic -/
 
 /-- `checkedAddI64`: reports success exactly when the mathematical sum fits, and then returns it. -/
 theorem C01_checkedAdd_spec (l r : Int) (hl : InI64 l) (hr : InI64 r) :
-    ((checkedAdd l r).2 = true ↔ InI64 (l + r)) ∧ ((checkedAdd l r).2 = true → (checkedAdd l r).1 = l + r) := by
-  unfold InI64 minI64 maxI64 at *
-  simp only [checkedAdd, wrap]
-  by_cases h1 : (l + r + 9223372036854775808) % 18446744073709551616 - 9223372036854775808 > l <;>
-  by_cases h2 : r > 0 <;> simp [h1, h2] <;> omega
+    ((checkedAdd l r).2 = true ↔ InI64 (l + r)) ∧ ((checkedAdd l r).2 = true → (checkedAdd l r).1 = l + r) :=
+  checkedAdd_spec l r hl hr
 
 theorem C01_checkedSub_spec (l r : Int) (hl : InI64 l) (hr : InI64 r) :
-    ((checkedSub l r).2 = true ↔ InI64 (l - r)) ∧ ((checkedSub l r).2 = true → (checkedSub l r).1 = l - r) := by
-  unfold InI64 minI64 maxI64 at *
-  simp only [checkedSub, wrap]
-  by_cases h1 : (l - r + 9223372036854775808) % 18446744073709551616 - 9223372036854775808 > l <;>
-  by_cases h2 : r < 0 <;> simp [h1, h2] <;> omega
+    ((checkedSub l r).2 = true ↔ InI64 (l - r)) ∧ ((checkedSub l r).2 = true → (checkedSub l r).1 = l - r) :=
+  checkedSub_spec l r hl hr
+
+/-- `checkedMulI64` (wrapped product, sign test, `res / lhs != rhs` with truncated division): reports
+    success exactly when the mathematical product fits, and then returns it. -/
+theorem C01_checkedMul_spec (l r : Int) (hl : InI64 l) (hr : InI64 r) :
+    ((checkedMul l r).2 = true ↔ InI64 (l * r)) ∧ ((checkedMul l r).2 = true → (checkedMul l r).1 = l * r) :=
+  checkedMul_spec l r hl hr
 
 theorem C01_checkedNeg_spec (a : Int) (ha : InI64 a) :
-    ((checkedNeg a).2 = true ↔ InI64 (-a)) ∧ ((checkedNeg a).2 = true → (checkedNeg a).1 = -a) := by
-  unfold InI64 minI64 maxI64 at *
-  simp only [checkedNeg, minI64]
-  by_cases h : a = -9223372036854775808 <;> simp [h] <;> omega
+    ((checkedNeg a).2 = true ↔ InI64 (-a)) ∧ ((checkedNeg a).2 = true → (checkedNeg a).1 = -a) :=
+  checkedNeg_spec a ha
+
+/-! ### (2) Comparison -/
 
 /-- `<`/`<=`/`>`/`>=`: defined exactly on two longs, two datetimes or two durations (agreeing with the
     integer order), `none` (⇒ type error) on every other pair. -/
@@ -50,8 +70,152 @@ theorem C01_compare_order (x y : Int) :
     cmpLT (.datetime x) (.datetime y) = some (decide (x < y)) ∧ cmpLE (.duration x) (.duration y) = some (decide (x ≤ y)) := by
   simp [cmpLT, cmpLE]
 
-/-- Tie to the source: the extension table and the dispatch switch of the Go source (regenerated on
-    every run, sorted by name) are the model's, and the time constants are the ones the model uses. -/
+/-! ### (3) `like` -/
+
+/-- The greedy leftmost chunk matcher of `types.Pattern.Match` equals the specification's backtracking
+    `wildcardMatch`, for every pattern `types.NewPattern` can build (`WFPattern`: only the first component
+    may lack a wildcard, only the last may have an empty literal) and every byte string.
+    (Bytes vs characters: see the remark at `Spec.wildcardMatch`.) -/
+theorem C01_patternMatch_spec (p : Pattern) (s : List UInt8) (hp : WFPattern p) :
+    matchComps p s = Spec.wildcardMatch p s :=
+  matchComps_eq_wildcardMatch p s hp
+
+/-- without `WFPattern` the greedy matcher is wrong (it answers `true` at a bare wildcard component
+    whatever follows): the hypothesis is needed, and it is exactly what `NewPattern` establishes -/
+theorem C01_patternMatch_needs_wf :
+    ∃ (p : Pattern) (s : List UInt8), matchComps p s ≠ Spec.wildcardMatch p s :=
+  ⟨[⟨true, []⟩, ⟨true, [1]⟩], [2], by decide +kernel⟩
+
+/-- `Spec.wildcardMatchElems` satisfies the defining equations of the specification's `wildcardMatch` -/
+theorem C01_wildcardMatch_equations (ps : List PatElem) (p c : UInt8) (cs : List UInt8) :
+    wildcardMatchElems [] [] = true ∧ wildcardMatchElems [] (c :: cs) = false ∧
+    wildcardMatchElems (.star :: ps) [] = wildcardMatchElems ps [] ∧
+    wildcardMatchElems (.star :: ps) (c :: cs) = (wildcardMatchElems ps (c :: cs) || wildcardMatchElems (.star :: ps) cs) ∧
+    wildcardMatchElems (.justChar p :: ps) [] = false ∧
+    wildcardMatchElems (.justChar p :: ps) (c :: cs) = (p == c && wildcardMatchElems ps cs) := by
+  simp [wildcardMatchElems, Spec.starMatch]
+
+/-! ### (4) Range invariant -/
+
+/-- In-range literals, request and store ⇒ every value the evaluator produces is in range
+    (all longs, decimals, datetimes and durations inside it are 64-bit). -/
+theorem C01_eval_preserves_range (e : Expr) (env : Env) (v : Value) (hwf : env.WF) (hl : e.LitsWF)
+    (h : eval e env = .ok v) : v.WF :=
+  eval_wf e env v hwf hl h
+
+/-! ### (5) Refinement
+
+  FULL STATEMENT (does not hold for the unchanged code, see (6)):
+    `theorem C01_eval_refines_spec (e env) (hwf : env.WF) (hl : e.LitsWF) (hp : e.PatternsWF) :
+        Refines (eval e env) (Spec.evaluate e env)`
+-/
+
+/-- The Go evaluator refines the specification in which ONLY `toDate` / `toTime` are replaced by what the Go
+    code computes (`goDates`): every other construct — arithmetic, short-circuit operators, equality,
+    ordering, sets, records, `like`, `has`, attribute and tag access, `is`, `in`, and all other decimal,
+    ipaddr, datetime and duration functions — follows the specification, for every expression and environment. -/
+theorem C01_eval_refines_spec_modulo_toDate (e : Expr) (env : Env) (hwf : env.WF) (hl : e.LitsWF)
+    (hp : e.PatternsWF) : Refines (eval e env) (evaluateWith goDates e env) :=
+  eval_refines_goDates e env hwf hl hp
+
+/-- The Go date projections agree with the specification's EXACTLY on the datetimes that are
+    non-negative or a whole number of days: the defect is confined to the complement. -/
+theorem C01_goDates_agree_iff (t : Int) (ht : InI64 t) :
+    (goDates.toDate t = Spec.floorDate t ↔ (0 ≤ t ∨ t % 86400000 = 0)) ∧
+    (goDates.toTime t = Spec.floorTime t ↔ (0 ≤ t ∨ t % 86400000 = 0)) :=
+  ⟨goToDate_eq_iff t ht, goToTime_eq_iff t⟩
+
+/-- **Refinement against the Cedar specification** (partial: the hypothesis `hd` excludes exactly the
+    known `toDate`/`toTime` defect — no `toDate`/`toTime` call in `e` has an argument that evaluates to a
+    negative datetime that is not day-aligned).  Same value; an error exactly when the specification fails. -/
+theorem C01_eval_refines_spec_partial (e : Expr) (env : Env) (hwf : env.WF) (hl : e.LitsWF) (hp : e.PatternsWF)
+    (hd : e.ToDateSafe env) : Refines (eval e env) (Spec.evaluate e env) :=
+  eval_refines_spec e env hwf hl hp hd
+
+/-- syntactic corollary: expressions that do not mention `toDate` / `toTime` -/
+theorem C01_eval_refines_spec_no_toDate (e : Expr) (env : Env) (hwf : env.WF) (hl : e.LitsWF) (hp : e.PatternsWF)
+    (hd : e.NoToDateToTime) : Refines (eval e env) (Spec.evaluate e env) :=
+  eval_refines_spec e env hwf hl hp (Expr.All_mono (fun x hx => safe_of_noDateCall env x hx) e hd)
+
+/-- the evaluator yields exactly the values the specification defines … -/
+theorem C01_eval_ok_iff_spec_ok (e : Expr) (env : Env) (hwf : env.WF) (hl : e.LitsWF) (hp : e.PatternsWF)
+    (hd : e.ToDateSafe env) (v : Value) : eval e env = .ok v ↔ Spec.evaluate e env = .ok v :=
+  (eval_refines_spec e env hwf hl hp hd).ok_iff v
+
+/-- … and reports an error exactly when the specification says evaluation fails -/
+theorem C01_eval_error_iff_spec_error (e : Expr) (env : Env) (hwf : env.WF) (hl : e.LitsWF) (hp : e.PatternsWF)
+    (hd : e.ToDateSafe env) : (∃ k, eval e env = .error k) ↔ (∃ k, Spec.evaluate e env = .error k) :=
+  (eval_refines_spec e env hwf hl hp hd).error_iff
+
+/-- the error kind is the specification's as well, unless cedar-go reports `type` / `unspecified` -/
+theorem C01_eval_eq_spec_unless_type_error (e : Expr) (env : Env) (hwf : env.WF) (hl : e.LitsWF) (hp : e.PatternsWF)
+    (hd : e.ToDateSafe env) (h1 : eval e env ≠ .error .type) (h2 : eval e env ≠ .error .unspecified) :
+    eval e env = Spec.evaluate e env :=
+  (eval_refines_spec e env hwf hl hp hd).eq_of_not_type h1 h2
+
+/-- `Refines` cannot be strengthened to equality of error kinds: with two faulty operands cedar-go
+    reports the left operand's type error, the specification the right operand's overflow. -/
+theorem C01_error_kind_may_differ :
+    ∃ (e : Expr) (env : Env), eval e env = .error .type ∧ Spec.evaluate e env = .error .overflow :=
+  ⟨.binop .add (.lit (.bool true)) (.binop .add (.lit (.long maxI64)) (.lit (.long 1))), emptyEnv, by rfl, by
+    simp [Spec.evaluate, evaluateWith, Spec.apply₂, Spec.intOrErr, bind, Except.bind, InI64, minI64, maxI64]⟩
+
+/-- the specification's `e is T in r` is the desugaring `(e is T) && (e in r)` -/
+theorem C01_spec_isIn_desugars (e : Expr) (ty : String) (r : Expr) (env : Env) :
+    Spec.evaluate (.isIn e ty r) env = Spec.evaluate (.binop .and (.is e ty) (.binop .in_ e r)) env := by
+  simp only [Spec.evaluate, evaluateWith]
+  cases h : evaluateWith Spec.cedarDates e env with
+  | error k => rfl
+  | ok v =>
+    cases h2 : evaluateWith Spec.cedarDates r env with
+    | error k => cases h3 : Spec.applyIs ty v <;> simp [bind, Except.bind, h3]
+    | ok w => cases h3 : Spec.applyIs ty v <;> simp [bind, Except.bind, h3]
+
+/-! ### (6) The known defect: `toDate` / `toTime` on negative, non-day-aligned datetimes -/
+
+/-- `datetime(-1ms).toDate()`: cedar-go 1970-01-01 (0 ms), specification 1969-12-31 (−86400000 ms) -/
+theorem C01_toDate_counterexample :
+    eval (.call "toDate" [.lit (.datetime (-1))]) emptyEnv = .ok (.datetime 0) ∧
+    Spec.evaluate (.call "toDate" [.lit (.datetime (-1))]) emptyEnv = .ok (.datetime (-86400000)) :=
+  ⟨by rfl, by
+    simp [Spec.evaluate, evaluateWith, ofName_toDate, Spec.evaluateList, Spec.partialErrorName, Spec.ExtFun.arity,
+      Spec.call, Spec.cedarDates, Spec.floorDate, bind, Except.bind, InI64, minI64, maxI64]⟩
+
+/-- `datetime(-1ms).toTime()`: cedar-go −1 ms, specification 86399999 ms -/
+theorem C01_toTime_counterexample :
+    eval (.call "toTime" [.lit (.datetime (-1))]) emptyEnv = .ok (.duration (-1)) ∧
+    Spec.evaluate (.call "toTime" [.lit (.datetime (-1))]) emptyEnv = .ok (.duration 86399999) :=
+  ⟨by rfl, by
+    simp [Spec.evaluate, evaluateWith, ofName_toTime, Spec.evaluateList, Spec.partialErrorName, Spec.ExtFun.arity,
+      Spec.call, Spec.cedarDates, Spec.floorTime, bind, Except.bind]⟩
+
+/-- `datetime(MinInt64 ms).toDate()`: cedar-go returns a value, the specification fails (the floored
+    instant is below the 64-bit range) -/
+theorem C01_toDate_overflow_counterexample :
+    eval (.call "toDate" [.lit (.datetime minI64)]) emptyEnv = .ok (.datetime (-9223372036828800000)) ∧
+    Spec.evaluate (.call "toDate" [.lit (.datetime minI64)]) emptyEnv = .error .overflow :=
+  ⟨by rfl, by
+    simp [Spec.evaluate, evaluateWith, ofName_toDate, Spec.evaluateList, Spec.partialErrorName, Spec.ExtFun.arity,
+      Spec.call, Spec.cedarDates, Spec.floorDate, bind, Except.bind, InI64, minI64, maxI64]⟩
+
+/-- hence the full refinement statement fails on the unchanged code (all other hypotheses hold) -/
+theorem C01_eval_refines_spec_counterexample :
+    ∃ (e : Expr) (env : Env), env.WF ∧ e.LitsWF ∧ e.PatternsWF ∧ ¬ Refines (eval e env) (Spec.evaluate e env) := by
+  refine ⟨.call "toDate" [.lit (.datetime (-1))], emptyEnv, ?_, ?_, ?_, ?_⟩
+  · exact ⟨by simp [emptyEnv, Value.WF], by simp [emptyEnv, Value.WF], by simp [emptyEnv, Value.WF],
+      by simp [emptyEnv, Value.WF], by intro u d h; simp [emptyEnv, Entities.get] at h⟩
+  · simp [Expr.LitsWF, Expr.All, Expr.AllL, litOK, Value.WF, InI64, minI64, maxI64]
+  · simp [Expr.PatternsWF, Expr.All, Expr.AllL, patOK]
+  · rw [C01_toDate_counterexample.1, C01_toDate_counterexample.2]
+    intro h
+    rcases h with h | ⟨⟨k, hk⟩, _⟩
+    · simp at h
+    · cases hk
+
+/-! ### (7) Tie to the source -/
+
+/-- The extension table and the dispatch switch of the Go source (regenerated on every run, sorted by
+    name) are the model's, and the time constants are the ones the model uses. -/
 theorem C01_facts_extMap :
     (∀ x ∈ Facts.extMap, x ∈ extMap) ∧ (∀ x ∈ extMap, x ∈ Facts.extMap) ∧
     Facts.extMap.length = extMap.length ∧
@@ -61,8 +225,54 @@ theorem C01_facts_extMap :
     Facts.intConsts.lookup "consts.MillisPerMinute" = some 60000 ∧
     Facts.intConsts.lookup "consts.MillisPerSecond" = some 1000 := by decide +kernel
 
+/-- the specification's function enumeration names exactly the functions of the Go table, with the same arities -/
+theorem C01_spec_extFuns_match_table :
+    (Spec.ExtFun.all.map (fun f => (f.name, f.arity))).length = extMap.length ∧
+    ∀ f ∈ Spec.ExtFun.all, ∃ m, (f.name, f.arity, m) ∈ extMap := by decide +kernel
+
 /-! ### Non-vacuity -/
+
 example : (checkedAdd maxI64 1).2 = false ∧ (checkedAdd (maxI64 - 1) 1) = (maxI64, true) := by decide +kernel
 example : (checkedSub minI64 1).2 = false ∧ (checkedNeg minI64).2 = false := by decide +kernel
+example : (checkedMul 3037000500 3037000500).2 = false ∧ checkedMul 3037000499 3037000499 = (9223372030926249001, true) ∧
+    (checkedMul minI64 (-1)).2 = false := by decide +kernel
+
+/-- patterns `"ab*c"`, `"*"`, `""` as `NewPattern` builds them are well-formed -/
+example : WFPattern [⟨false, [97, 98]⟩, ⟨true, [99]⟩] ∧ WFPattern [⟨true, []⟩] ∧ WFPattern [⟨false, []⟩] ∧ WFPattern [] := by
+  decide +kernel
+example : matchComps [⟨false, [97, 98]⟩, ⟨true, [99]⟩] [97, 98, 99, 100, 99] = true ∧
+    Spec.wildcardMatch [⟨false, [97, 98]⟩, ⟨true, [99]⟩] [97, 98, 99, 100, 99] = true := by decide +kernel
+
+/-- the hypotheses of the refinement theorem are satisfiable by a non-trivial state: a store with a
+    parent link, and an expression using `in`, arithmetic, `like`, attribute access and `toDate` on a
+    non-negative datetime -/
+def c01ExEnv : Env :=
+  ⟨[(("User", "a"), ⟨[("Group", "g")], [("n", .long 5)], []⟩)], .entity "User" "a", .entity "Action" "v",
+    .entity "Doc" "d", .record [("s", .str "abc")]⟩
+
+def c01ExExpr : Expr :=
+  .binop .and (.binop .in_ (.var .principal) (.lit (.entity "Group" "g")))
+    (.binop .and (.binop .lt (.binop .mul (.access (.var .principal) "n") (.lit (.long 3))) (.lit (.long 100)))
+      (.binop .and (.like (.access (.var .context) "s") [⟨false, [97]⟩, ⟨true, []⟩])
+        (.binop .eq (.call "toDate" [.lit (.datetime 86400001)]) (.lit (.datetime 86400000)))))
+
+example : c01ExEnv.WF ∧ c01ExExpr.LitsWF ∧ c01ExExpr.PatternsWF ∧ c01ExExpr.ToDateSafe c01ExEnv ∧
+    (match eval c01ExExpr c01ExEnv with | .ok (.bool true) => true | _ => false) = true := by
+  refine ⟨⟨by simp [c01ExEnv, Value.WF], by simp [c01ExEnv, Value.WF], by simp [c01ExEnv, Value.WF],
+      by simp [c01ExEnv, Value.WF, Value.WFKV], ?_⟩, ?_, ?_, ?_, by decide +kernel⟩
+  · intro u d h
+    simp only [c01ExEnv, Entities.get] at h
+    split at h
+    · cases h; simp [Value.WFKV, Value.WF, InI64, minI64, maxI64]
+    · cases h
+  · simp [c01ExExpr, Expr.LitsWF, Expr.All, Expr.AllL, litOK, Value.WF, InI64, minI64, maxI64]
+  · simp [c01ExExpr, Expr.PatternsWF, Expr.All, Expr.AllL, patOK]
+    decide +kernel
+  · simp only [c01ExExpr, Expr.ToDateSafe, Expr.All, Expr.AllL, toDateSafeNode, and_true, true_and]
+    intro _ t ht
+    have : t = 86400001 := by
+      simp only [eval] at ht
+      cases ht; rfl
+    omega
 
 end CedarGo
